@@ -80,7 +80,7 @@ PRELUDE = r'''
     :nil "nil"
     :boolean (string x)
     :number (string x)
-    :string (string "\"" (string/replace-all " " "_" (peg/replace-all '(* "<tuple 0x" (some (range "09" "AF" "af")) ">") "<tuple>" (peg/replace-all '(* "<fiber 0x" (some (range "09" "AF" "af")) ">") "<fiber>" x))) "\"")
+    :string (string "\"" (string/replace-all " " "_" (peg/replace-all '(* "<struct 0x" (some (range "09" "AF" "af")) ">") "<struct>" (peg/replace-all '(* "<tuple 0x" (some (range "09" "AF" "af")) ">") "<tuple>" (peg/replace-all '(* "<fiber 0x" (some (range "09" "AF" "af")) ">") "<fiber>" x)))) "\"")
     :keyword (string ":" x)
     :fiber (string "F" (fid x))
     :tuple (string "(" (string/join (map fmt x) ",") ")")
@@ -101,12 +101,12 @@ PRELUDE = r'''
 (defn stat [f] (if (fiber? f) (fiber/status f) :nofib))
 (defn lastv [f] (if (fiber? f) (fiber/last-value f) :nofib))
 %MACROS%
-(defn run-tree [idx f flags]
+(defn run-tree [idx f flags &opt v0]
   (set G @[(fiber/root)])
   (set TR @[])
   (def m (fiber/new f flags))
   (array/push G m)
-  (def r (resume m))
+  (def r (resume m v0))
   (print idx " " (string/join TR ";") " | done " (statnum (fiber/status m)) " " (fmt r) " " (snap))
   (flush))
 '''
